@@ -196,13 +196,20 @@ def make_equivariance(n, d, kind):
             scalings = [np.full(d, sc) for sc in (1e-6, 1e-4, 1e4, 1e6)]
             if d > 1:
                 scalings += [np.array([1e-3, 1e3][:d]), np.array([1e4, 1.0][:d]), np.array([1e-6, 1e6][:d]), np.array([1.0, 1e-6][:d]), np.array([1e6, 1.0][:d])]  # per-coordinate (anisotropic) scalings
-            for aa in scalings:
-                sc = aa.tolist()
-                p1, q1, r1 = fit_mvstud(x)
-                p2, q2, r2 = fit_mvstud(x * aa)
-                if not (np.allclose(p2, aa * p1, rtol=1e-6, atol=0) and np.allclose(q2, np.outer(aa, aa) * q1, rtol=1e-6, atol=0)):
-                    return {"reproduced": True, "signature": f"fit_mvstud:not-equivariant:{kind}", "payload": {"scale": sc},
-                            "what": f"fit_mvstud of 200 points scaled per coordinate by {sc}: scale matrix {q2.tolist()} is not diag(a) Sigma diag(a) of the unscaled one {q1.tolist()}"}
+            import io, contextlib
+            # heavy tails (the dof update stays finite and the EM loop runs) and light tails (the fit returns its initial scale matrix
+            # with nu = inf); after one iteration and at convergence
+            datasets = [("t(2)", x), ("uniform", np.random.RandomState(1).uniform(0.2, 0.8, size=(200, d)))]
+            for dname, xx in datasets:
+                for aa in scalings:
+                    sc = aa.tolist()
+                    for mi in (1, 100):
+                        with contextlib.redirect_stdout(io.StringIO()):
+                            p1, q1, r1 = fit_mvstud(xx, max_iter=mi)
+                            p2, q2, r2 = fit_mvstud(xx * aa, max_iter=mi)
+                        if not (np.allclose(p2, aa * p1, rtol=1e-6, atol=0) and np.allclose(q2, np.outer(aa, aa) * q1, rtol=1e-6, atol=0)):
+                            return {"reproduced": True, "signature": f"fit_mvstud:not-equivariant:{kind}", "payload": {"scale": sc, "data": dname, "max_iter": mi},
+                                    "what": f"fit_mvstud(max_iter={mi}) of 200 {dname} points scaled per coordinate by {sc}: scale matrix {q2.tolist()} is not diag(a) Sigma diag(a) of the unscaled one {q1.tolist()}"}
             y = x * a + b
         else:
             a, b, perm = np.ones(d), np.zeros(d), [1, 0]
